@@ -288,12 +288,11 @@ class SccContext:
       self.current_text_decoration = text_decoration
 
     else:
+      # a mid-row code replaces the italics and underline set by the code that precedes it
       if color is not None:
         self.current_color = color
-      if font_style is not None:
-        self.current_font_style = font_style
-      if text_decoration is not None:
-        self.current_text_decoration = text_decoration
+      self.current_font_style = font_style
+      self.current_text_decoration = text_decoration
 
       if processed_caption is not None:
         processed_caption.append_text(" ")
